@@ -20,6 +20,7 @@ import r_peek
 import r_nan
 import r_winv
 import r_linear
+import r_seed
 
 
 def _sets(quick, thorough=None):
@@ -67,17 +68,21 @@ PROPS = {
         design_ref='DESIGN.md §11 "Weight-sum typing"',
     ),
     'C08': dict(
-        rules=[r_linear.rule_L01_c08],
+        rules=[r_linear.rule_L01_c08, r_seed.l02_seed_degree],
         feature_sets=_sets(['default'], ['default', 'u16', 'f32']),
         rules_thorough=[on_build(r_linear.rule_L01_c08, 'u16'), on_build(r_linear.rule_L01_c08, 'f32')],
         explanation=('(L01) for every method over a single value whose constructor and next() stay inside the affine-form domain (see C15): the state the '
                      'constructor builds from its first input v is a fixed point of next(v) - every accumulator is constructed with exactly the coefficient '
                      'sum and offset one more step of the constant stream gives it (numerator = v * n(n+1)/2, total = -v * n, s_xy = v * s_x, ...) - and the '
                      'output is the same at every step; hence, in exact arithmetic, extra leading copies of the first element leave state and outputs unchanged. '
-                     'The windowless Integral (length 0) is the documented cumulative exception and is listed as exempt.'),
+                     'The windowless Integral (length 0) is the documented cumulative exception and is listed as exempt. '
+                     '(L02) indicators: init() and next() are interpreted in the same domain with the price accessors of the candle as stream values of coefficient sum 1; '
+                     'every inner method (built from one value by Method::new / MovingAverageConstructor::init) remembers the abstract value it was seeded with and every next(&mut inner, &x) '
+                     'compares x with it: a seed that is a price level (coefficient sum 1) for a method that is fed differences (coefficient sum 0), or the reverse, is reported - such an inner '
+                     'method starts at the seed and decays towards the level of what it is fed, so the constant candle does not give constant values. 31 of 37 indicators are inside the path budget.'),
         not_decided=['indicators (candle input), selections, dispersion methods and every method with a product of stream values or a stream-dependent branch: outside the domain, listed as undecided',
                      'exact constancy in floating point / absence of drift: the argument is over the reals',
-                     'which documented seed (price or 0.0) an indicator must give an inner method: not decided'],
+                     'indicators: only the translation degree of a seed is decided (price level vs difference); a difference-like quantity that is not zero on a constant candle (high - low, volume) seeded with 0.0 is not seen; six indicators exceed the path budget and are listed as undecided'],
         assumptions=TRUST,
         technique='static analysis: abstract interpretation of MIR in an affine-form domain with symbolic coefficient sums (constructor state is a fixed point of the constant stream)',
         level_text=('For the linear single-value methods the closed-form initial accumulators are proved consistent with the step function for every length '
@@ -325,9 +330,10 @@ PROPS = {
     'C04': dict(
         rules=[lambda ctx: r_mirror.s04_mirror_siblings(ctx, which=('highest_lowest::Highest', 'highest_lowest_index::HighestIndex')),
                r_mirror.s05_mixed_float_equivalence, r_mirror.s04b_full_window_scans, r_mirror.s04c_eviction_test, r_winv.a06_index_methods,
+               r_window.s03_sibling_constructors,
                lambda ctx: r_step.s07_step_once(ctx, only_types=('Highest', 'Lowest', 'HighestLowestDelta', 'HighestIndex', 'LowestIndex', 'SMM', 'MedianAbsDev'), rule_id='S07s')],
         feature_sets=_sets(['default']),
-        explanation=('(S04) Lowest / LowestIndex are the HIR mirror image of Highest / HighestIndex (new, next, peek) under the swap >=/<=, '
+        explanation=('(S03) every way of building an SMM (new, the hand-written Deserialize) produces a sorted slice that is sorted by an ascending NUMERIC comparator over the whole window - the median read from it is only a median if that holds. (S04) Lowest / LowestIndex are the HIR mirror image of Highest / HighestIndex (new, next, peek) under the swap >=/<=, '
                      '>/< on float operands and max/min: the min-side behaviour is the mirrored max-side behaviour, ties included. (S05) every '
                      'to_bits() equality site is enumerated; a function that compares the same pair of floats by bits and by numeric order '
                      'while steering a search (recursion / fn pointer / loop) is reported: the relations disagree on signed zeros. (S07s) on every '
